@@ -133,14 +133,17 @@ def judgeC16 (op : AsmOp) (out : String) : Expect :=
 
 def AsmOp.judge (prop : String) (op : AsmOp) (out : String) : Expect :=
   if prop == "C15" then judgeC15 op out
-  else if prop == "C16" then judgeC16 op out
+  -- C16: a request that arrives in pieces gets the same single reply (nothing is sent for a part of it);
+  -- C18: what the classifier accepts is dispatched only once the announced number of bytes is there
+  else if prop == "C16" then (if op.chunks.length > 1 then judgeC15 op out else judgeC16 op out)
+  else if prop == "C18" then judgeC15 op out
   else .noPanic
 
 def AsmOp.kf (prop : String) (op : AsmOp) : Option String :=
   -- the FC17 request (length field 2) is rejected by the classifier: test-pinned (KF-C18-fc17)
   let stream := op.chunks.flatten
   let (frames, _) := idealFrames (stream.length + 1) stream
-  if (prop == "C15" || prop == "C16") && frames.any isFC17Request then
-    some (if prop == "C15" then "KF-C15-fc17" else "KF-C16-fc17") else none
+  if (prop == "C15" || prop == "C16" || prop == "C18") && frames.any isFC17Request then
+    some (if prop == "C15" then "KF-C15-fc17" else if prop == "C16" then "KF-C16-fc17" else "KF-C18-fc17") else none
 
 end Modbus.Driver
